@@ -349,7 +349,8 @@ def r08_3(ck: Check) -> None:
 
 def r08_4(ck: Check) -> None:
     sch = schema(ck)
-    sel = [s for s in sch.selects if s.table == "chain"]
+    # the SELECT the reader iterates to rebuild blocks (count / max helpers over the same table are not it)
+    sel = [s for s in sch.selects if s.table == "chain" and len(s.columns) >= 5]
     construct = "chain SELECT is ordered by height ascending (parents before children)"
     if len(sel) == 1 and sel[0].order_by and sel[0].order_by[0] == ("height", "ASC"):
         ck.ok("R08.4", construct, "", "%s:%d" % (sch.module.path, sel[0].line))
@@ -378,8 +379,13 @@ def r08_5(ck: Check) -> None:
     begins = [i for i, t in enumerate(texts) if t[1].startswith("begin")]
     commits = [i for i, t in enumerate(texts) if t[1].startswith("commit")]
     inserts = [i for i, t in enumerate(texts) if t[0] == "executemany"]
+    # an empty batch may be skipped altogether; any other condition on a statement splits or drops a batch
+    nonempty = {Spec(w.summ, ("self", "blocks")).term("len(blocks) != 0")}
+    # a failure of any statement must reach the caller (which clears the buffer only after a normal return)
+    quiet = [e for e in ex for ti in e.tries for _types, reraises in ti.handlers if not reraises]
     good = (len(begins) == 1 and len(commits) == 1 and len(curs) == 1 and inserts and begins[0] < min(inserts) and max(inserts) < commits[0]
-            and all(not residual(e, ()) and not e.loops for e in ex) and len(inserts) == 4)
+            and all({c.term for c in residual(e, ())} <= nonempty and not e.loops for e in ex) and len(inserts) == 4 and not quiet
+            and len({tuple(c.term for c in residual(e, ())) for e in ex}) == 1)
     if good:
         ck.ok("R08.5", construct, "%d inserts between BEGIN and COMMIT" % len(inserts), w.summ.fi.loc)
     else:
